@@ -19,11 +19,15 @@ PROP = Prop(
         "jd_instant: Hypothesis whole-second instants 1901-2099; non-trivial = second-of-minute != 0, distinct by instant. "
         "scenario_time: (start instant, offset<=30 d) round trips; non-trivial = start second != 0 or fractional offset. "
         "timed_run: real Scenario.propagateTo on the in-process Ray double for (start, dt>=2, D); "
-        "non-trivial = D not a multiple of dt or start second-of-minute != 0; distinct by (start, dt, D)."
+        "non-trivial = D not a multiple of dt or start second-of-minute != 0; distinct by (start, dt, D). "
+        "run_entry: the real runResonaate(config, sim_time_hours=D/3600) with only the configuration-file reader replaced; "
+        "non-trivial = float(D/3600)*3600 lands below the whole second D (half of the cases are drawn from that 4% class)."
     ),
     assumptions=[
         "datetime arithmetic of the Python standard library is the exact reference",
         "the in-process Ray double executes the same resonaate task functions as a Ray worker would",
+        "a duration handed to runResonaate as hours (the nearest float to D/3600 for a whole number of seconds D) means D: durations "
+        "are read to the nearest microsecond, as datetime.timedelta(hours=h) does",
     ],
 )
 
@@ -326,3 +330,81 @@ def timed_run(case, rec):
         seen.add(ts)
     if span % dt:
         rec.label("span_not_multiple_of_step")
+
+
+# ------------------------------------------------------------------------------------------------
+# the entry point a user actually calls: runResonaate(config, sim_time_hours)
+# ------------------------------------------------------------------------------------------------
+def _low_products(dt, kmax=14):
+    """Durations k*dt whose hour value, multiplied back by 3600 in floating point, lands just below the whole second (4% of all)."""
+    return [k * dt for k in range(1, kmax + 1) if (k * dt / 3600.0) * 3600.0 < k * dt]
+
+
+_LOW_STEPS = [dt for dt in range(2, 901) if _low_products(dt)]
+
+
+@st.composite
+def _entry_cases(draw):
+    from vf.strategies.instants import eop_instants
+
+    if draw(st.booleans()):
+        dt = draw(st.sampled_from(_LOW_STEPS))
+        d = draw(st.sampled_from(_low_products(dt)))
+    else:
+        dt = draw(st.one_of(st.sampled_from([2, 3, 5, 7, 10, 30, 60, 90, 120, 300, 600]), st.integers(2, 900)))
+        d = draw(st.integers(1, 12)) * dt + draw(st.sampled_from([0, 0, 0, 1, dt - 1, dt // 2]))
+    return {"start": iso(draw(eop_instants(margin_days=3))), "dt": dt, "duration_s": d}
+
+
+@PROP.clause("run_entry", strategy=_entry_cases, quick=100, thorough=3000, shards=8)
+def run_entry(case, rec):
+    """runResonaate(config, sim_time_hours = D/3600) - the call behind the command line - advances floor(D/dt) steps"""
+    import resonaate
+    import resonaate.scenario as rscenario
+    from vf import scenario_kit as kit
+
+    t0 = parse(case["start"])
+    dt, d = case["dt"], case["duration_s"]
+    hours = d / 3600.0
+    tgt = kit.eci_target(10001, kit.circular_state_over(10.0, 20.0, t0, 9000.0))
+    sen = kit.ground_sensor(20001, 10.0, 20.0)
+    cfg = kit.scenario_config(t0, t0 + timedelta(seconds=d + 2 * dt), dt, [kit.engine(1, [sen], [tgt])], truth_only=True)
+    built = {}
+    calls = []
+
+    def builder(_init_message, internal_db_path=None, importer_db_path=None):  # noqa: ARG001
+        sc = kit.build(cfg)
+        orig = sc.stepForward
+
+        def counted():
+            calls.append(1)
+            return orig()
+
+        sc.stepForward = counted
+        sc.shutdown = lambda: None  # (writes a Ray timeline file into the working directory)
+        built["sc"] = sc
+        return sc
+
+    keep = rscenario.buildScenarioFromConfigFile
+    rscenario.buildScenarioFromConfigFile = builder
+    try:
+        try:
+            resonaate.runResonaate("harness-built configuration", sim_time_hours=hours)
+            raised = None
+        except ValueError as err:
+            raised = err
+    finally:
+        rscenario.buildScenarioFromConfigFile = keep
+    want = d // dt
+    if hours * 3600.0 < d:
+        rec.label("hours_times_3600_below_whole_second")
+        rec.nontrivial([case["start"], dt, d])
+    elif d % dt:
+        rec.label("duration_not_multiple_of_step")
+    if raised is not None and want > 0:
+        raise Violation("refused", f"runResonaate refused {hours!r} h = {d}s with step {dt}s from {case['start']}: {raised!r}")
+    if len(calls) != want:
+        raise Violation("entry_step_count", f"runResonaate(sim_time_hours={hours!r}) = {d}s with step {dt}s from {case['start']} advanced {len(calls)} steps, expected {want}")
+    sc = built["sc"]
+    if sc.clock.datetime_epoch != t0 + timedelta(seconds=want * dt) or float(sc.clock.time) != want * dt:
+        raise Violation("entry_clock", f"after runResonaate({hours!r} h) the clock stands at {sc.clock.datetime_epoch} / {float(sc.clock.time)}s, expected start+{want * dt}s")
